@@ -91,7 +91,9 @@ func strokeInput(id run.CaseID) strokeCase {
 			p = append(p, Pt{X: x, Y: y})
 		}
 		sc.Lines = Paths{p}
-		sc.Delta = math.Max(0.5, gen.PickOf(r, 0.5, 1, 2.5, 6, float64(R)*0.005, float64(R)*0.03))
+		// delta >= 1 in the fresh family: with delta in [0.5,1) the two sides of the stroke round onto each other and
+		// the outline degenerates (thin strokes are exercised by the closed pools, where such cases are listed)
+		sc.Delta = math.Max(1, gen.PickOf(r, 1, 1.5, 2.5, 6, float64(R)*0.005, float64(R)*0.03))
 		sc.Join = r.Intn(4)
 		sc.End = 1 + r.Intn(4)
 		sc.Miter = gen.PickOf(r, 1.0, 2, 5)
@@ -202,8 +204,8 @@ func c10Run(ctx *run.Ctx, id run.CaseID) {
 			compared++
 			if dist := ledges.MinDist(v); dist > k*d+tol {
 				class := ""
-				// a square join at a near-reversal (cos < -0.999, applied on both sides) reaches sqrt(1+(1+tan 1.28deg)^2) = 1.4302*delta
-				if k <= math.Sqrt2 && jt != clip.Round && jt != clip.Bevel && dist <= 1.4302*d+tol {
+				// a square join at a near-reversal (cos < -0.999, applied on both sides) reaches sqrt(1+((1+sin a)/cos a)^2) = 1.43030*delta at a = 1.2814 deg (cos 2a = 0.999)
+				if k <= math.Sqrt2 && jt != clip.Round && jt != clip.Bevel && dist <= 1.43031*d+tol {
 					class = "square-join-near-reversal"
 				}
 				fail("too-far", class, fmt.Sprintf("result vertex %s is %.2f from the polyline, limit k*delta+tol = %.2f", fmtPt(v), dist, k*d+tol))
@@ -216,7 +218,7 @@ func c10Run(ctx *run.Ctx, id run.CaseID) {
 			compared++
 			if dist := ledges.MinDist(p); dist > k*d+tol {
 				class := ""
-				if k <= math.Sqrt2 && jt != clip.Round && jt != clip.Bevel && dist <= 1.4302*d+tol {
+				if k <= math.Sqrt2 && jt != clip.Round && jt != clip.Bevel && dist <= 1.43031*d+tol {
 					class = "square-join-near-reversal"
 				}
 				fail("too-far", class, fmt.Sprintf("result contains %s which is %.2f from the polyline, limit %.2f", fmtPt(p), dist, k*d+tol))
